@@ -24,6 +24,13 @@ SPEC = dict(
           "period; biased to land exactly on, 1ns before, 1ns after, +-skew around the next roll-over instant) across at most "
           "maxRoll in 0..6 roll-overs with never more than one switch between consecutive samples, 0-2 Close()+restart with the "
           "same key after a drawn gap (0 .. four periods, or aimed at a roll-over instant); all oracles at every sample. "
+          "Fault stratum of T (1/3 of T runs, drawn apart): the manager runs on a clock whose Now() = bubble clock + offset while "
+          "its timers stay on the bubble clock; at drawn steps the offset jumps forward by 1 min / 59 min / 61 min / 90 min / 5 h / "
+          "2 d / 20 d (suspend, VM pause, wall-clock step: a timer armed before the jump fires late by the jump in wall time); "
+          "every oracle is judged in wall time; only while a roll-over is overdue because the pending timer was delayed by jumps "
+          "(from the due instant until due + jumps since the timer was armed, computed from the documented roll-over rule) the "
+          "valid-until oracle and the one-switch-between-samples assumption are suspended - after that firing everything must "
+          "hold again for good. "
           "Stratum V (1/5): 1-6 certificate/hash-list pairs at drawn clock offsets (valid incl. boundary instants and exactly "
           "14 days; hash absent / other multihash function / same digest under another code / flipped bit / truncated; "
           "expired; not yet valid; > 14 days; RSA PKCS#1, RSA-PSS, RSA subject key; empty chain; two-certificate chains), "
@@ -40,6 +47,8 @@ SPEC = dict(
             "restart-in-third-0", "restart-in-third-1", "restart-in-third-2", "restart-exactly-at-rollover-instant",
             "restart-serves-same-certificate", "restart-serves-announced-next", "restart-serves-later-certificate",
             "learned-addr-checked-across-restart", "restart-drops-previous-period-hash", "rollovers>=3", "rollovers>=6",
+            "clock-jump-longer-than-skew", "clock-jump-longer-than-a-period", "sample-while-rollover-overdue-after-jump",
+            "late-rollover-timer-fired", "rollover-after-a-late-one-observed",
             "verifier-valid", "verifier-hash-not-listed-as-sha2-256", "verifier-expired", "verifier-not-yet-valid",
             "verifier-lifetime-over-14-days", "verifier-rsa", "verifier-rsa-pss", "verifier-rsa-subject-key",
             "verifier-empty-chain", "verifier-chain-pinned-cert-not-first",
@@ -51,6 +60,9 @@ SPEC = dict(
           "crypto/x509, crypto/ecdsa, filippo.io/keygen, x/crypto/hkdf"],
     stubs=["UDP: github.com/marcopolo/simnet in-memory network, 1 ms latency, no loss (dial stratum)"],
     assume=["synctest fake clock and quiescence detection (Go 1.25.7)",
+            "clock jumps: forward only (backward steps are not covered by the statement); model = wall-clock Now() + monotonic timers; "
+            "verifiers/dialers are assumed to live on the true wall clock; the dial and verifier strata run without jumps "
+            "(verifyRawCerts reads time.Now(), which cannot be offset)",
             "dial stratum: the outcome of a fault-free dial (completed / refused at TLS / refused in Noise) does not depend on the "
             "runtime's goroutine interleaving (checked by VERIF_SELFTEST and ./check selftest); dials never start within 5 s before a roll-over",
             "gap: the server in the dial stratum is honest; a relay that owns the certificate behind an injected certhash and pipes the "
